@@ -823,7 +823,15 @@ class Executor:
             arr, other = (a, b) if isinstance(a, SArr) else (b, a)
             if isinstance(op, ast.Eq):
                 return SArr(arr.shape, lambda *i: arr.elem(*i) == other, "bool")
-            raise Unsupported("array comparison")
+            if isinstance(other, SArr):
+                raise Unsupported("comparison of two arrays")
+            if isinstance(op, ast.NotEq):
+                return SArr(arr.shape, lambda *i: arr.elem(*i) != other, "bool")
+            # elementwise order comparison with a scalar, the array on either side
+            fl = {ast.Lt: (lambda x, y: x < y), ast.LtE: (lambda x, y: x <= y), ast.Gt: (lambda x, y: x > y), ast.GtE: (lambda x, y: x >= y)}[type(op)]
+            if isinstance(a, SArr):
+                return SArr(arr.shape, lambda *i: fl(_numz(arr.elem(*i)), _numz(other)), "bool")
+            return SArr(arr.shape, lambda *i: fl(_numz(other), _numz(arr.elem(*i))), "bool")
         if isinstance(a, KeysView) or isinstance(b, KeysView):
             r = set(a) == set(b)
             if isinstance(op, ast.Eq):
@@ -1376,6 +1384,26 @@ def lib_concatenate(ex, args, kwargs, pc):
     return SArr(tuple(shape), elem, arrs[0].dtype)
 
 
+def lib_broadcast_to(ex, args, kwargs, pc):
+    """jnp.broadcast_to(a, shape): right-aligned; a source extent that is the literal 1 is repeated, any other source
+    extent must equal the target extent (side obligation)"""
+    a = args[0]
+    shape = tuple(kwargs.get("shape", args[1] if len(args) > 1 else None))
+    if not isinstance(a, SArr) or len(a.shape) > len(shape):
+        raise Unsupported("broadcast_to of this value")
+    off = len(shape) - len(a.shape)
+    rep = []
+    for k, sx in enumerate(a.shape):
+        if concrete(sx) and sx == 1:
+            rep.append(True)
+        else:
+            rep.append(False)
+            tx = shape[off + k]
+            if not (sx is tx or (concrete(sx) and concrete(tx) and sx == tx)):
+                ex.obligations.append(("broadcast_to: extents agree", list(pc), zint(sx) == zint(tx)))
+    return SArr(shape, lambda *j: a.elem(*[0 if rep[k] else j[off + k] for k in range(len(a.shape))]), a.dtype)
+
+
 def lib_reshape_method(ex, a, args, kwargs, pc):
     new = tuple(args[0]) if len(args) == 1 and isinstance(args[0], (tuple, list)) else tuple(args)
     return reshape(ex, a, new, pc)
@@ -1395,6 +1423,12 @@ def reshape(ex, a, new, pc):
         ex.obligations.append(("reshape preserves the number of elements", list(pc), zint(new_nz[0]) == zint(rows) * zint(cols)))
         pos = [k for k, s_ in enumerate(new) if not (concrete(s_) and s_ == 1)][0]
         return SArr(tuple(new), lambda *j: a.elem(zint(j[pos]) / zint(cols), zint(j[pos]) % zint(cols)), a.dtype)
+    if len(a.shape) == len(new) + 1 and len(a.shape) >= 2 and all(
+            (x is y) or (concrete(x) and concrete(y) and x == y) for x, y in zip(a.shape[2:], new[1:])):
+        # row-major merge of the two leading axes: out[r, ...] = a[r // B, r % B, ...]
+        A_, B_ = a.shape[0], a.shape[1]
+        ex.obligations.append(("reshape preserves the number of elements", list(pc), zint(new[0]) == zint(A_) * zint(B_)))
+        return SArr(tuple(new), lambda r, *rest: a.elem(zint(r) / zint(B_), zint(r) % zint(B_), *rest), a.dtype)
     if len(old_nz) != len(new_nz):
         raise Unsupported(f"general reshape {a.shape} -> {new}")
     for x, y in zip(old_nz, new_nz):
@@ -1811,6 +1845,7 @@ LIB = {
     "jnp.zeros": lib_zeros,
     "jnp.ones": lib_ones,
     "jnp.iinfo": lib_iinfo,
+    "jnp.broadcast_to": lib_broadcast_to,
     "jnp.finfo": lib_finfo,
     "jnp.int32": "int32",
     "jnp.take": lib_take,
